@@ -11,6 +11,9 @@ import BGV
 #print axioms BGV.C01_readd_noop
 #print axioms BGV.C01_remove_absent_noop
 #print axioms BGV.C01_resize_keeps
+#print axioms BGV.C01_removeFront
+#print axioms BGV.C01_removeFront_empty
+#print axioms BGV.C01_emptying_loop
 #print axioms BGV.C01_adjacencyMatrix
 #print axioms BGV.C01_inDegree
 #print axioms BGV.C01_degree_vectors
